@@ -5,6 +5,8 @@ from . import wiregen as W
 ID = "C06"
 SPEC_IS_ORACLE = lambda c: c.cmd == "RUN"  # handle-level cases: the model is the closed form of the property
 AUDIT_IMPORTS = ["PortusModel.Props.C06Acts", "PortusModel.Props.C06Uid"]
+# theorems of Props/Tables.lean over the tables TRANSLATED from /repo/src and libccp's headers on every run (DESIGN 11.7)
+TABLE_THEOREMS = ['src_regEnc_eq', 'src_reg_layout', 'src_msgTypes_eq', 'src_lengths_eq', 'regclasses_shared_with_libccp', 'msgtypes_shared_with_libccp', 'libccp_model_constants']
 THEOREMS = [
     "Portus.C06.updatefield_staged", "Portus.C06.updatefield_acts", "Portus.C06.changeprog_staged", "Portus.C06.changeprog_acts",
     "Portus.C06.changeprog_unknown_uid", "Portus.C06.pending_applied", "Portus.C06.pending_applied_switch", "Portus.C06.update_takes_effect",
